@@ -107,6 +107,12 @@ def fragment_class(fragment: str, form: str) -> str:
         return "blank"
     if len(f) >= 60:
         return "long-word"
+    if any(ord(ch) > 0xFFFF for ch in f):
+        return "astral"
+    if any(ord(ch) > 0x7F for ch in f):
+        return "non-ascii"
+    if "%" in f:
+        return "percent"
     return "other"
 
 
